@@ -8,7 +8,8 @@ from c11 import DEF_RX
 
 NEEDS = ("runner", "cli")
 DEF_RX = dict(DEF_RX, scala=r"^\s*(?:case class|class|sealed trait|type) (\w+)")
-CRATES = ["alpha", "beta-x", "gamma_y", "delta", "eps-i-lon"]
+# incl. workspace crates whose names merely *start* like a crate the import collector ignores (time, http, std, serde …)
+CRATES = ["alpha", "beta-x", "gamma_y", "delta", "eps-i-lon", "time-series", "http_api", "std_ext", "serde-models"]
 
 
 def file_name(lang, crate):
